@@ -116,6 +116,7 @@ func runC17(p *core.Prog, r *core.Result) {
 		"R17.10 a package is matched against the ignore set under its own path, as the label names it (a slice of the package label): no lexical normaliser of path or path/filepath (Rel, Clean, Join, ...) lies in between, since those never return the empty path of the root package but \".\"",
 		"R17.11 every other character literally, whatever its encoding: the translation copies pattern bytes as bytes - no conversion of an integer (a byte of the pattern) to a string, which re-encodes every byte above 0x7f as a two-byte code point, so that a pattern with a non-ASCII character no longer matches the path that spells it",
 		"R17.12 os.glob matches paths relative to the thread's working directory and makes them relative by cutting `cwd + separator` off the walked path, which is right only for a clean cwd: every working directory handed to util.Chdir is the result of filepath.Join, Dir, Clean or Abs (a hand-built `root + \"/\" + ...` that ends in a separator for the root package leaves the paths absolute: `*` selects nothing, `**` returns absolute paths, excludes never apply)",
+		"R17.13 the ignore set matches what the patterns of dawn.toml say: nothing stores into Config.Ignore or its elements after the file was decoded, and the list compiled for the ignore set is the field itself (CleanPath, applied to patterns as it is to requirement paths, drops a trailing @v0/@v1 and rewrites ./ and //: `third_party/*@v1` would ignore every package below third_party)",
 		"R17.6 the compiled set is a function of the given pattern list alone (no package-level state, every successful return is the compilation of this call's pattern)",
 	}
 	r.NotDecided = []string{"Go's regexp engine implements the parsed expression (trusted)", "'.' does not match newline in Go's default mode: paths are assumed to contain no newline", "the undocumented [...] character-class pass-through"}
@@ -768,6 +769,7 @@ func runC17(p *core.Prog, r *core.Result) {
 
 	// ---- R17.12 the working directory os.glob strips is clean
 	checkThreadCwdClean(p, r, "R17.12")
+	checkIgnorePatternsVerbatim(p, r, "R17.13")
 
 	// ---- R17.11 bytes stay bytes
 	{
